@@ -242,6 +242,7 @@ pub fn random_transport(plan: &mut ClientPlan, rng: &mut Rng) {
         plan.pt.frame_pause = Some((*rng.pick(&[1u8, 2, 3, 4, 5]), *rng.pick(&[100u32, 800, 3_000]), rng.below(3) as u8));
     }
     plan.pt.status_codes = rng.below(4) as u8;
+    plan.pt.script_order = if rng.pct(35) { 1 + rng.below(3) as u8 } else { 0 };
     plan.pt.intermediate_timeout = if rng.pct(25) { Some(*rng.pick(&[0u8, 1, 30, 99])) } else { None };
     limit_delays(plan);
     plan.pt.abort_extras = if rng.pct(30) { 1 + rng.below(4) as u8 } else { 0 };
@@ -711,6 +712,39 @@ fn fault_at_every_point(name: &'static str, wl: Vec<Vec<OpSpec>>, kinds: Vec<Fau
     })
 }
 
+/// Packets of a reply script in an unusual order / grouping (print packets before the status
+/// information, intermediate statuses last, ...): begin - commit | cancel with every script carrying
+/// several non-final packets; `i` selects order 1..3 x status form x commit|cancel x dangling or not.
+fn unusual_order_plan(mut i: u64) -> ClientPlan {
+    let order = 1 + (i % 3) as u8;
+    i /= 3;
+    let status = [StatusMode::WithReceipt, StatusMode::WithReceiptTwice, StatusMode::WithThenWithout][(i % 3) as usize];
+    i /= 3;
+    let commit = i % 2 == 0;
+    i /= 2;
+    let pending = [PendingSpec::NoneFfff, PendingSpec::Dangling, PendingSpec::DanglingWithList][(i % 3) as usize];
+    i /= 3;
+    let (pre, prints) = [(2u8, 2u8), (3, 1), (1, 3), (0, 3)][(i % 4) as usize];
+    let rev = RevOutcome { pre, status: true, prints, end: EndSpec::Completion };
+    let cleanup = CleanupSpec {
+        pending,
+        pending_pre: pre,
+        eod: EodOutcome { pre, status: true, prints, end: EndSpec::Completion },
+        cancel: RevOutcome { pre, status: true, prints, end: EndSpec::Completion },
+    };
+    let mut p = ClientPlan::plain(vec![
+        OpSpec::Begin { token: "A".into(), res: ResOutcome { pre, status, prints, end: EndSpec::Completion } },
+        if commit {
+            OpSpec::Commit { token: "A".into(), amount: 700, rev, cleanup }
+        } else {
+            OpSpec::Cancel { token: "A".into(), rev, cleanup }
+        },
+    ]);
+    p.pt.script_order = order;
+    p
+}
+const UNUSUAL_ORDER_N: u64 = 3 * 3 * 2 * 3 * 4;
+
 /// One public call whose exchange `ex` (0..9) the terminal aborts with `code` after `k`
 /// intermediate statuses and `prints` print packets.
 fn abort_exchange_plan(ex: u64, code: u8, k: u8, prints: u8) -> ClientPlan {
@@ -839,6 +873,7 @@ impl Check for ClientCheck {
         let mut fams: Vec<Family<ClientPlan>> = vec![];
         match self.id {
             "C07" => {
+                fams.push(Family::new("reply_packets_in_unusual_order", UNUSUAL_ORDER_N, true, |i, _| unusual_order_plan(i)));
                 let depth = match tier {
                     Tier::Quick => 3,
                     Tier::Thorough => 4,
@@ -909,6 +944,7 @@ impl Check for ClientCheck {
                 fams.push(Family::new("random_walks_under_transport_faults", n / 2, false, move |_, rng| faulty_walk(rng, &TOKENS5, 12)));
             }
             "C08" => {
+                fams.push(Family::new("reply_packets_in_unusual_order", UNUSUAL_ORDER_N, true, |i, _| unusual_order_plan(i)));
                 // boundary grid: pre x final, exhaustive over the listed boundary values
                 let pres: Vec<u64> = vec![0, 1, 2, 2500, 99_999, 100_000, 999_999_999_998, 999_999_999_999];
                 let n = pres.len() as u64 * 9 * 3;
@@ -1082,6 +1118,7 @@ impl Check for ClientCheck {
                 }));
             }
             "C19" => {
+                fams.push(Family::new("reply_packets_in_unusual_order", UNUSUAL_ORDER_N, true, |i, _| unusual_order_plan(i)));
                 // (own op commit|cancel) x (other token open or not) x pending form x 256 eod outcomes (+completion)
                 let n = 2 * 2 * 2 * 7 * 257 * 2;
                 fams.push(Family::new("cleanup_grid_all_eod_outcomes", n, true, |mut i, _| {
@@ -1193,6 +1230,12 @@ impl Check for ClientCheck {
                     let k = ((i / 256) % 4) as u8;
                     let ex = i / 1024;
                     abort_exchange_plan(ex, code, k, k / 2)
+                }));
+                // the non-final packets before the abort in an unusual order
+                fams.push(Family::new("abort_behind_packets_in_unusual_order", 9 * 256 * 3, true, |i, _| {
+                    let mut p = abort_exchange_plan(i / 768, (i % 256) as u8, 3, 2);
+                    p.pt.script_order = 1 + ((i / 256) % 3) as u8;
+                    p
                 }));
                 // the same on a later connection: the terminal closed the first one once Feig::new was through
                 fams.push(Family::new("every_exchange_x_256_codes_on_a_later_connection", 9 * 256 * 2, true, |i, _| {
